@@ -2,6 +2,11 @@
 evutil_ascii_strcasestr, evutil_rtrim_lws_, evutil_snprintf, evutil_sockaddr_cmp against table-free reference definitions
 written in harness/h_util.c."""
 from checks import generic
+import vlib
+
+# The harness allocates and frees many small exact-size blocks per evaluation; ASan's default 256 MB quarantine makes
+# every allocation touch fresh pages (7x slower).  16 MB still keeps a freed block poisoned for thousands of evaluations.
+ASAN_ENV = dict(ASAN_OPTIONS=vlib.sanitizer_env("asan")["ASAN_OPTIONS"] + ":quarantine_size_mb=16")
 
 RULE = ("inputs = (a) every byte 0..255 through the 8 class predicates and both case maps, and all 256x256 byte pairs through strcasecmp/"
         "strncasecmp as one-byte strings and embedded behind a case-differing common prefix (exhaustive, both tiers); (b) random and related "
@@ -11,14 +16,14 @@ RULE = ("inputs = (a) every byte 0..255 through the 8 class predicates and both 
         "and transitivity; non-trivial = every generated pair/string/triple (empty strings included at 10%); distinct = hash of the inputs")
 REG = dict(category="exploration",
            text="Runtime differential monitor: all 256 bytes x 10 ctype/case functions and all 65536 byte pairs through strcasecmp/strncasecmp "
-                "(exhaustive sub-space), plus ~1.6e5 (quick) / 2e7 (thorough) generated strings and sockaddr triples, compared with "
+                "(exhaustive sub-space), plus ~1.2e5 (quick) / 1.8e7 (thorough) generated strings and sockaddr triples, compared with "
                 "locale-independent reference definitions (range tests, naive search) and order axioms; inputs live in exact-size heap blocks under ASan.",
            note="string and sockaddr spaces are sampled; evutil_snprintf is compared with libc snprintf output (return value, prefix, termination)",
            technique="differential runtime oracle (reference definitions, order axioms) + ASan exact-size buffers")
 STEPS = [
-    dict(flavor="asan", harness="h_util", args=["--mode", "ctype"], cases=dict(quick=256, thorough=256)),
-    dict(flavor="asan", harness="h_util", args=["--mode", "str"], cases=dict(quick=300, thorough=40000), seed_off=1),
-    dict(flavor="asan", harness="h_util", args=["--mode", "sacmp"], cases=dict(quick=200, thorough=30000), seed_off=2),
+    dict(flavor="asan", env=ASAN_ENV, harness="h_util", args=["--mode", "ctype"], cases=dict(quick=256, thorough=256)),
+    dict(flavor="asan", env=ASAN_ENV, harness="h_util", args=["--mode", "str"], cases=dict(quick=200, thorough=30000), seed_off=1),
+    dict(flavor="asan", env=ASAN_ENV, harness="h_util", args=["--mode", "sacmp"], cases=dict(quick=150, thorough=20000), seed_off=2),
 ]
 
 
